@@ -296,8 +296,11 @@ def history_strategy(max_ops):
                 ops.append(["pragma", draw(st.sampled_from([False, False, True]))])
             elif k == "eval":
                 mode = draw(st.sampled_from(M.MODES))
-                keys = draw(st.lists(callname, min_size=1, max_size=3, unique=True)) if mode == "dict" else []
-                ops.append(["eval", draw(callnames), mode, keys])
+                keys = draw(st.lists(callname, min_size=1, max_size=3, unique=True)) if mode in ("dict", "dict+inner") else []
+                names = draw(callnames)
+                if mode == "dict+inner" and names and draw(st.booleans()):
+                    keys = list(names)[:3]  # the names called are in macros= as well: it must outrank the inner local macro
+                ops.append(["eval", names, mode, keys])
             else:
                 ops.append(["snap"])
         while depth:
